@@ -62,14 +62,6 @@ POPPERS = {"pop", "popleft", "popitem"}
 # --------------------------------------------------------------------------- formulas (hashable variants of core.guards)
 
 
-def freeze(f: Formula) -> Formula:
-    if f[0] in ("and", "or"):
-        return (f[0], tuple(freeze(g) for g in f[1]))
-    if f[0] == "not":
-        return ("not", freeze(f[1]))
-    return f
-
-
 def f_not(f: Formula) -> Formula:
     if f[0] == "const":
         return ("const", not f[1])
@@ -267,10 +259,6 @@ def subterms(t: Term) -> list[Term]:
     return out
 
 
-def contains(t: Term, pred: Callable[[Term], bool]) -> bool:
-    return any(pred(x) for x in subterms(t))
-
-
 def rewrite(t: Term, fn: Callable[[Term], "Term | None"]) -> Term:
     """Bottom-up rewriting; `fn` returns a replacement or None."""
     new = map_children(t, lambda x: rewrite(x, fn))
@@ -452,10 +440,6 @@ class Frame:
     on_yield: "Callable | None" = None
     base_pc: int = 0
     end_states: list = field(default_factory=list)
-
-
-class _LoopExit(Exception):
-    pass
 
 
 class Trace:
@@ -646,7 +630,7 @@ class SymX:
             # a mutable container: its truthiness is a fact about one moment only
             key = f"bool({show(t)})@{self.fresh()}"
             return self._atom(("unk", key, 0), key)
-        if tag == "mcall" and t[2] in ("split", "rsplit", "splitlines") and t[2] != "splitlines":
+        if tag == "mcall" and t[2] in ("split", "rsplit"):
             return TRUE  # str.split never returns an empty list
         if _nonempty_str(t):
             return TRUE
@@ -868,15 +852,6 @@ class SymX:
                 out.heap[k] = phi([(ga, va if va is not None else base_attr), (gb, vb if vb is not None else base_attr)])
         return out
 
-    def _merge_all(self, states: list[State], base: int) -> State | None:
-        live = [s for s in states if s.alive]
-        if not live:
-            return None
-        out = live[0]
-        for s in live[1:]:
-            out = self._merge(out, s, base)
-        return out
-
     # ------------------------------------------------------------------ loops
     def _havoc_names(self, st: State, names: set[str], loop_id: int, idx: int = -1) -> None:
         env = st.envs[idx]
@@ -910,15 +885,15 @@ class SymX:
         return changed
 
     def _for(self, s: ast.For, st: State) -> State:
-        it = self.eval(s.iter, st)
         targets = _names_of_target(s.target)
         assigned = (_assigned_names(s.body) - self._inplace_only(s.body, st)) | targets
         early = _exits_early(s.body)
         gen = self._generator_callee(s.iter, st)
         if gen is not None:
-            # the event recorded for the generator call itself is dropped below: the generator is executed in place
+            # a repo generator: executed in place, the loop body runs at every `yield`
             st = self._for_generator(s, st, gen, assigned, early)
         else:
+            it = self.eval(s.iter, st)
             pre = st.copy()
             lid = self.fresh()
             loop = Loop(lid, "for", it, None, self.fi, s, early)
@@ -1087,12 +1062,7 @@ class SymX:
         lid = self.fresh()
         loop = Loop(lid, "gen", ("fn", callee.fq), None, self.fi, s, early)
         caller_frame = self.frame
-        # drop the event that evaluating the iterable recorded for the (not entered) generator call
-        if self.events and self.events[-1].node is call:
-            self.events.pop()
-        mark = len(self.events)
         recv, args, kwargs = self._call_operands(call, st)
-        del self.events[mark:]  # operands were evaluated (and recorded) once already
         self._havoc_names(st, assigned, lid)
         targets = _names_of_target(s.target)
 
@@ -1159,6 +1129,8 @@ class SymX:
                 self._assign(el, items[i], st, None)
         elif isinstance(target, ast.Attribute):
             base = self.eval(target.value, st)
+            if base[0] == "box":
+                base = ("box", base[1], base[2], ("unk", "", 0))  # fields are keyed by the identity of a container
             st.heap[(base, target.attr)] = v
             self._record("setattr", ("builtin", "setattr"), base, target.attr, (v,), (), st, target, None)
         elif isinstance(target, ast.Subscript):
@@ -1420,11 +1392,12 @@ class SymX:
             for g in e.generators:
                 it = self.eval(g.iter, inner)
                 lid = self.fresh()
+                before = len(inner.pc)
                 self._bind_iteration(g.target, it, inner, lid)
                 tgt = self.eval(_load(g.target), inner)
                 self.loops.append(Loop(lid, "comp", it, tgt, self.fi, e))
                 pushed += 1
-                conds = []
+                conds = list(inner.pc[before:])  # conditions under which the iterated source produces its elements
                 for c in g.ifs:
                     f = self.truth(self.eval(c, inner))
                     conds.append(f)
